@@ -229,6 +229,7 @@ public:
 	std::vector<std::string> samples;
 	size_t maxSamples = 6;
 
+	bool abandonSearch = false;   // set by a harness to end the running dfs() after the current execution (reported as not exhaustive)
 	void obs(uint64_t v) { execHash = mix64(execHash, v); }
 	// something about how the current BFS step ended that the model state does not show (a call's result, "a fault fired"):
 	// harnesses whose keys include the last operation append it here, so that e.g. remove(h) -> true and the later
@@ -411,7 +412,7 @@ public:
 
 // ---------------------------------------------------------------- plain DFS exploration (no state merging)
 // body runs one complete execution; returns normally or throws Stop.
-struct DfsResult { long executions = 0; bool complete = true; };
+struct DfsResult { long executions = 0; bool complete = true; bool abandoned = false; };
 
 inline DfsResult dfs(Ctx & ctx, int budget, const std::function<void()> & body, const std::function<void()> & after = nullptr,
 		const std::vector<int> & prefix = {}) {
@@ -438,6 +439,7 @@ inline DfsResult dfs(Ctx & ctx, int budget, const std::function<void()> & body, 
 			if(!s.empty()) ctx.samples.push_back(s);
 			ctx.tracing = false;
 		}
+		if(ctx.abandonSearch) { r.complete = false; r.abandoned = true; ctx.abandonSearch = false; break; }   // the harness gave this search up (size cap)
 		if((r.executions & 255) == 0 && ctx.timeUp()) { r.complete = false; break; }
 	} while(ex.advance());
 	return r;
